@@ -25,7 +25,7 @@ const c12Block = 625 // prefixes per case (5^4)
 func (e *C12) ID() string    { return "C12" }
 func (e *C12) Level() string { return "exploration" }
 func (e *C12) Rule() string {
-	return "section A (exhaustive): every prefix over the signature alphabet {I, M, *, 0x00, other} of length 0..7 (quick) / 0..10 (thorough), followed by an II or MM header with a random first-IFD offset and >= 28 further bytes, searched through a *bufio.Reader (sizes 32, 33, 64, 4096) and through a plain reader; section B: random prefixes up to 16 KiB built from alphabet runs and random bytes, with the signature placed at every offset 4060..4100 and 8150..8200 (buffer refill boundaries), streams without any signature, and streams whose only signature has fewer than 28 bytes after it. section C (exhaustive): every single-byte variation of II*\\0 and MM\\0* as a near miss in front of a real header and in a stream without one; section D: streams of 64 KiB to 3 MiB that start like a HEIF / JPEG / RW2 / CR3 file or with random bytes, the signature behind them; the image-type argument is varied (it labels the result and must not steer the search). Oracle: a naive search of the same bytes in the harness gives the first signature index; the reported TiffHeaderOffset, byte order and FirstIfdOffset must match it, the bufio.Reader must afterwards stand exactly on the reported signature, and ErrNoExif is returned exactly when no signature has 28 bytes after it. Non-trivial: the prefix contains a proper partial signature; distinct = distinct (prefix, header) for section A, (offset, buffer size) for B."
+	return "section A (exhaustive): every prefix over the signature alphabet {I, M, *, 0x00, other} of length 0..7 (quick) / 0..10 (thorough), followed by an II or MM header with a random first-IFD offset and >= 28 further bytes, searched through a *bufio.Reader (sizes 32, 33, 64, 4096) and through a plain reader; section B: random prefixes up to 16 KiB built from alphabet runs and random bytes, with the signature placed at every offset 4060..4100 and 8150..8200 (buffer refill boundaries), streams without any signature, and streams whose only signature has fewer than 28 bytes after it. section C (exhaustive): every single-byte variation of II*\\0 and MM\\0* as a near miss in front of a real header and in a stream without one; section D: streams of 64 KiB to 3 MiB that start like a HEIF / JPEG / RW2 / CR3 file or with random bytes, the signature behind them; the image-type argument is varied (it labels the result and must not steer the search). Oracle: a naive search of the same bytes in the harness gives the first signature index; the reported TiffHeaderOffset, byte order and FirstIfdOffset must match it, the bufio.Reader must afterwards stand exactly on the reported signature - and, for a quarter of the streams, still do so after two overlapping searches on an unrelated stream (the second started from inside a Read of the first) - and ErrNoExif is returned exactly when no signature has 28 bytes after it. Non-trivial: the prefix contains a proper partial signature; distinct = distinct (prefix, header) for section A, (offset, buffer size) for B."
 }
 func (e *C12) Assumptions() []string {
 	return []string{"bufio.Reader arguments have a buffer of at least 32 bytes (the search peeks 32)"}
@@ -95,6 +95,9 @@ func hasPartial(p []byte) bool {
 	return false
 }
 
+// c12Other is an unrelated stream searched between a search and the use of its result.
+var c12Other = append([]byte("zzzzzzzzzMzIzMM\x00*\x00\x00\x00\x10"), make([]byte, 300)...)
+
 func c12Check(c *core.Ctx, stream []byte, what string) {
 	want := gen.FirstTIFFSig(stream)
 	wantErr := want < 0 || len(stream)-want < 32
@@ -133,6 +136,22 @@ func c12Check(c *core.Ctx, stream []byte, what string) {
 			nx, _ := br.Peek(8)
 			if len(nx) < 8 || string(nx) != string(stream[want:want+8]) {
 				viol("tiffscan:position", fmt.Sprintf("reader not positioned on the reported header: next bytes %x, header %x", nx, stream[want:want+8]))
+			} else if (len(stream)+want)%4 == 0 {
+				// the caller's reader stays positioned while other streams are searched (two searches
+				// in flight at once, the second started from inside a Read of the first)
+				rs := mon.NewRS(c12Other)
+				done := false
+				rs.Yield = func() {
+					if !done {
+						done = true
+						_, _ = tiff.ScanTiffHeader(mon.NewRS(c12Other), imagetype.ImageUnknown)
+					}
+				}
+				_, _ = tiff.ScanTiffHeader(rs, imagetype.ImageUnknown)
+				nx, _ = br.Peek(8)
+				if len(nx) < 8 || string(nx) != string(stream[want:want+8]) {
+					viol("tiffscan:position-after-other-calls", fmt.Sprintf("after searches on other streams the caller's reader no longer stands on the reported header: next bytes %x, header %x", nx, stream[want:want+8]))
+				}
 			}
 		}
 	}
